@@ -73,20 +73,63 @@ Definition mirror_eqb (a b : mirror_entry) : bool :=
   match a, b with mi c1 e1 g1 h1, mi c2 e2 g2 h2 => Z.eqb c1 c2 && Z.eqb e1 e2 && Bool.eqb g1 g2 && Bool.eqb h1 h2 end.
 Definition zz_eqb (a b : Z * Z) : bool := Z.eqb (fst a) (fst b) && Z.eqb (snd a) (snd b).
 
+(* canonical forms: the order in which the rebuild observers of different context types run, and
+   hence the order of closing events and of instance construction across types, is a hash-map
+   order no property fixes; events outside a frame's own evaluation are compared after a stable
+   sort by (action, target), which keeps the internal order of every (entity, action) stream *)
+Fixpoint insert_by {A} (key : A -> Z) (x : A) (l : list A) : list A :=
+  match l with [] => [x] | y :: r => if Z.ltb (key x) (key y) then x :: l else y :: insert_by key x r end.
+Definition sort_by {A} (key : A -> Z) (l : list A) : list A := fold_left (fun acc x => insert_by key x acc) l [].
+Definition ev_key (e : event) : Z := e_action e * 1000 + e_target e.
+Definition canon_events (l : list event) : list event := sort_by ev_key l.
+Definition canon_built (l : list (Z * Z)) : list (Z * Z) := sort_by (fun p => fst p * 1000 + snd p) l.
+
 (* which field of which step differs first: step*100 + field (0 = equal) *)
-Definition out_diff (a b : out) : Z :=
+Definition out_diff (is_frame : bool) (a b : out) : Z :=
   first_fail
-    [ (1, list_eqb event_eqb (x_pre a) (x_pre b)); (2, list_eqb event_eqb (x_main a) (x_main b));
-      (3, list_eqb event_eqb (x_post a) (x_post b)); (4, list_eqb logitem_eqb (x_log a) (x_log b));
+    [ (1, list_eqb event_eqb (x_pre a) (x_pre b));
+      (2, if is_frame then list_eqb event_eqb (x_main a) (x_main b)
+          else list_eqb event_eqb (canon_events (x_main a)) (canon_events (x_main b)));
+      (3, list_eqb event_eqb (canon_events (x_post a)) (canon_events (x_post b)));
+      (4, list_eqb logitem_eqb (x_log a) (x_log b));
       (5, list_eqb snap_entry_eqb (x_snaps a) (x_snaps b)); (6, list_eqb mirror_eqb (x_mirror a) (x_mirror b));
-      (7, list_eqb zz_eqb (x_built a) (x_built b)); (8, Bool.eqb (x_probe a) (x_probe b));
+      (7, list_eqb zz_eqb (canon_built (x_built a)) (canon_built (x_built b))); (8, Bool.eqb (x_probe a) (x_probe b));
       (9, Bool.eqb (x_update a) (x_update b)); (10, Bool.eqb (x_panicked a) (x_panicked b)) ].
-Fixpoint outs_diff (i : Z) (a b : list out) : Z :=
+Definition is_frame (s : step) : bool := match s with SFrame _ => true | _ => false end.
+Fixpoint outs_diff (i : Z) (steps : list step) (a b : list out) : Z :=
   match a, b with
   | [], [] => 0
-  | x :: r, y :: s => let d := out_diff x y in if Z.eqb d 0 then outs_diff (i + 1) r s else i * 100 + d
+  | x :: r, y :: s =>
+      let d := out_diff (match steps with st :: _ => is_frame st | [] => false end) x y in
+      if Z.eqb d 0 then outs_diff (i + 1) (tl steps) r s else i * 100 + d
   | _, _ => i * 100 + 99
   end.
 Definition trace_diff (sc : scenario) (t : trace_t) : Z :=
-  match t with trace outs => outs_diff 0 (run sc) outs | panic => 9999 end.
+  match t with trace outs => outs_diff 0 (s_steps sc) (run sc) outs | panic => 9999 end.
 Definition agree_full (p : scenario * trace_t) : bool := Z.eqb (trace_diff (fst p) (snd p)) 0.
+
+(* ---- helpers for the per-property judgements on implementation traces ---- *)
+Fixpoint find_cond (id : Z) (l : list logitem) : option (value * state * list (Z * state)) :=
+  match l with
+  | [] => None
+  | LCond i v r s :: rest => if Z.eqb i id then Some (v, r, s) else find_cond id rest
+  | _ :: rest => find_cond id rest
+  end.
+Fixpoint find_mod (id : Z) (l : list logitem) : option (value * value * list (Z * state)) :=
+  match l with
+  | [] => None
+  | LMod i v o s :: rest => if Z.eqb i id then Some (v, o, s) else find_mod id rest
+  | _ :: rest => find_mod id rest
+  end.
+Definition log_ids (l : list logitem) : list Z :=
+  map (fun x => match x with LCond i _ _ _ | LMod i _ _ _ => i end) l.
+Definition snap_of_entry (c e a : Z) (l : list snap_entry) : option snap :=
+  match find (fun x => match x with sn c' e' a' _ => Z.eqb c c' && Z.eqb e e' && Z.eqb a a' end) l with
+  | Some (sn _ _ _ s) => s
+  | None => None
+  end.
+Definition events_for (e a : Z) (l : list event) : list event :=
+  filter (fun x => Z.eqb (e_target x) e && Z.eqb (e_action x) a) l.
+Definition state_max (a b : state) : state := if Nat.leb (state_rank a) (state_rank b) then b else a.
+(* merged configuration of an action that is bound several times in one instance *)
+Definition merged_actions (s : inst_spec) : list abind := in_binds (instantiate s).
